@@ -492,7 +492,11 @@ func c01Run(c *verifeng.Chooser, f *c01fix, env *verifhfs.Env, depth, npeers int
 		oracle := os.Getenv("VFX_ORACLE")
 		after, bad := h.checkC01()
 		if bad != "" && oracle == "C02" {
-			// not this check's clause; the chain can no longer be judged
+			// not this check's clause; judge the transition if the chain
+			// is still readable, then stop this history.
+			if after != nil {
+				h.checkC02(ev, p, before, after, synced, wasSync, listTip)
+			}
 			c.Obs("(stopped: C01 clause violated)")
 			return
 		}
@@ -659,11 +663,11 @@ func c01Configs(tier string) []c01cfg {
 		{name: "plain"},
 		{name: "retarget4", retarget: 4},
 		{name: "checkpoint2", checkpoints: []int{2}},
+		{name: "checkpoints2,4", checkpoints: []int{2, 4}},
 	}
 	if tier == "thorough" {
 		cfgs = append(cfgs,
 			c01cfg{name: "retarget4-mindiff", retarget: 4, minDiff: true},
-			c01cfg{name: "checkpoints2,4", checkpoints: []int{2, 4}},
 			c01cfg{name: "retarget4-checkpoint4-stale", retarget: 4, checkpoints: []int{4}, stale: true},
 			c01cfg{name: "plain-stale", stale: true},
 		)
